@@ -159,6 +159,7 @@ func (a *Activation) external(ins *ssa.Call, callee *ssa.Function, args []Val, s
 			st.ncall = c.Fresh("ncall", "Int")
 		}
 		st.gvars["sortperm"] = Val{K: KScalar, Srt: arrSort("Int", "Int"), S: perm}
+		st.gvars["sortinv"] = Val{K: KScalar, Srt: arrSort("Int", "Int"), S: inv}
 		return Val{K: KTuple}
 	case "encoding/json.Marshal":
 		return a.jsonMarshal(ins, args, st, rc)
